@@ -218,7 +218,7 @@ def main():
         "known_findings_applied": [f.key() for f in known_hit],
         "fixed_entries": [x for x in fixed if ("property=%s " % pid) in x],
         "violation_keys": [f.key() for f in viol],
-        "notes": res.notes,
+        "notes": res.notes + ([getattr(ctx, "degraded")] if getattr(ctx, "degraded", None) else []),
     }
     ev = {
         "property_id": pid,
